@@ -176,6 +176,15 @@ def dual_oracle(prog, check_flags=False) -> List[Tuple[str, str]]:
         r = ex.step(st)
         if r != "ok":
             continue  # a failing statement leaves no trace (C13); the twin skips it
+        if st[0] in ("set", "aug", "outb", "outu") and not check_flags:
+            tgt = st[1]
+            own = du.owner(tgt)
+            if du.const.get(tgt) != du.const.get(own) or du.blocked.get(tgt, False):
+                # an update through a view whose flag was forced against its base's (or through a chain that passes
+                # such a view): the window's old contents are then those of a tensor the caller declared constant
+                # (or the reverse) and the flag rule decides what they transmit — two defensible functional
+                # programs; the constant rule is C10's, this oracle stays out
+                return []
         try:
             du.step(st)
         except Exception as e:
